@@ -54,7 +54,8 @@ def background(rng, nc, ns, fs=30000.0, ntop=0):
 
 
 def place_faults(rng, nc, ntop, ndead, nnoisy, positions=None):
-    cand = list(range(0, nc - ntop - 8 if ntop else nc))
+    # the last channels are left alone: a silent channel at the very top IS a (one-channel) block lacking the common signal, either label is defensible
+    cand = list(range(0, nc - ntop - 8))
     chosen = []
     want = ndead + nnoisy
     if positions is not None:
